@@ -84,9 +84,28 @@ def check_histories(first, depth, acc):
                             sig['frame'] = exc_frame(res)
                         acc.violation(ID, 'hist', dict(history=[HIST_MENU[j] for j in hist], step=step, opt=oi), sig, observed=repr(res)[:300])
                         break
-            # and all of it in one document
+            # and all of it in one document (self-quoting front matter: fresh converters, see check_fresh)
             doc = ' '.join(HIST_MENU[i] for i in hist)
-            check_input(doc, acc, 'hist-doc')
+            if any('\\maketitle}' in HIST_MENU[i] or HIST_MENU[i] == '\\date\\maketitle' for i in hist):
+                check_fresh(doc, acc, 'hist-doc')
+            else:
+                check_input(doc, acc, 'hist-doc')
+
+
+def check_fresh(s, acc, sub):
+    """latex_to_text of s on a fresh converter for every option set."""
+    from pylatexenc.latex2text import LatexNodes2Text
+    acc.count('evaluations')
+    acc.count('nontrivial')
+    for oi, o in enumerate(OPTS):
+        st, res = run_guarded(LatexNodes2Text(**o).latex_to_text, s)
+        if st != 'ok' or not isinstance(res, str):
+            sig = dict(kind='hang' if st == 'timeout' else ('exception' if st == 'exc' else 'not-a-string'), via='latex_to_text-fresh-converter')
+            if st == 'exc':
+                sig['exc'] = type(res).__name__
+                sig['frame'] = exc_frame(res)
+            acc.violation(ID, sub, dict(s=s, opt=oi, fresh=True), sig, observed=repr(res)[:300])
+            return
 
 
 def plan(tier):
@@ -167,7 +186,12 @@ def run_shard(shard, tier, acc):
         for name in m[sh::32]:
             for fr in MACRO_FRAMES:
                 s = fr.replace('\\M', '\\' + name + (' ' if name[-1:].isalpha() and False else ''))
-                check_input(s, acc, sub)
+                if name == 'maketitle' and fr.endswith('\\maketitle'):
+                    # front matter that quotes \maketitle itself: on the long-lived converters of this sweep the stored title would
+                    # grow with every evaluation (state kept on the converter by design); these three inputs get fresh converters
+                    check_fresh(s, acc, sub)
+                else:
+                    check_input(s, acc, sub)
                 acc.count('name_frames')
             acc.sample(dict(macro=name))
     else:
@@ -194,6 +218,9 @@ def replay(sub, case):
                     sig['frame'] = exc_frame(res)
                 acc.violation(ID, 'hist', case, sig, observed=repr(res)[:300])
                 break
+        return acc.violations
+    if case.get('fresh'):
+        check_fresh(case['s'], acc, sub)
         return acc.violations
     check_input(case['s'], acc, sub, only=(case['opt'] if case.get('opt', -1) >= 0 else None))
     return acc.violations
